@@ -597,6 +597,13 @@ def _source(node, tu, all_nodes):
     for o in owners:
         lines.append('#include "n%d.h"' % o)
     cxx = tu['lang'] == 'c++'
+    # a non-static global that the code reads: in a shared object this needs position-
+    # independent code, also when the object reaches it through a static library
+    gv = 'c14_gv_%s_n%d' % (tu['role'], node['id'])
+    if cxx:
+        lines.append('extern "C" { volatile unsigned %s = %du; }' % (gv, tu['k']))
+    else:
+        lines.append('volatile unsigned %s = %du;' % (gv, tu['k']))
     if tu['role'] == 'main':
         lines.append('int main(void) {')
     else:
@@ -606,11 +613,11 @@ def _source(node, tu, all_nodes):
             lines.append('unsigned %s(void) {' % tu['sym'])
     if cxx:
         # operator new / delete come from the C++ runtime library
-        lines.append('    unsigned *p = new unsigned(%du);' % tu['k'])
+        lines.append('    unsigned *p = new unsigned(%s);' % gv)
         lines.append('    unsigned r = *p;')
         lines.append('    delete p;')
     else:
-        lines.append('    unsigned r = %du;' % tu['k'])
+        lines.append('    unsigned r = %s;' % gv)
     for via, o, s in tu['calls']:
         lines.append('    r += %s_n%d();' % (s, o))
     if tu['sqrt']:
